@@ -130,6 +130,9 @@ func runKs(op string) (out string) {
 				default:
 					res = append(res, "other")
 				}
+				if quiet, _ := cl.Quiet(25 * time.Millisecond); !quiet { // a second frame for one USE
+					res[len(res)-1] += "+extra"
+				}
 			}
 		case 'q', 'e':
 			token++
